@@ -8,7 +8,6 @@ use rs_opw_kinematics::kinematic_traits::{Joints, Kinematics, Pose};
 use rs_opw_kinematics::kinematics_with_shape::KinematicsWithShape;
 use rs_opw_kinematics::parameters::opw_kinematics::Parameters;
 use rs_opw_kinematics::rrt::RRTPlanner;
-use rs_opw_kinematics::utils::transition_costs;
 use nalgebra::{Isometry3, Translation3};
 
 pub struct Scn { pub start: Joints, pub dx: f64, pub dz: f64, pub nsteps: usize, pub obstacle: bool, pub include_interp: bool, pub step_m: f64, pub cost_deg: f64, pub depth: usize }
@@ -38,7 +37,7 @@ pub fn check(s: &Scn) -> Option<(String, String)> {
     let k = if s.obstacle { robot(Some([flange.translation.x as f32, flange.translation.y as f32, flange.translation.z as f32])) } else { robot(None) };
     if k.collides(&s.start) { return None; }
     let planner = Cartesian { robot: &k, check_step_m: s.step_m, check_step_rad: 3.0f64.to_radians(), max_transition_cost: s.cost_deg.to_radians(), transition_coefficients: DEFAULT_TRANSITION_COSTS,
-        linear_recursion_depth: s.depth, rrt: RRTPlanner { step_size_joint_space: 3.0f64.to_radians(), max_try: 50, debug: false }, include_linear_interpolation: s.include_interp, debug: false };
+        linear_recursion_depth: s.depth, rrt: RRTPlanner { step_size_joint_space: 3.0f64.to_radians(), max_try: if s.cost_deg < 1.0 { 400 } else { 50 }, debug: false }, include_linear_interpolation: s.include_interp, debug: false };
     let mut from = s.start; from[0] += 0.05;     // the given start configuration: close to, but not equal to, a landing solution
     if k.collides(&from) { return None; }
     let r = planner.plan(&from, &land, steps.clone(), &park);
@@ -78,7 +77,7 @@ pub fn check(s: &Scn) -> Option<(String, String)> {
         let detour = |f: PathFlags| f.contains(PathFlags::ONBOARDING) || f.contains(PathFlags::ALTERED);
         let cart = !detour(w.flags) && (n == 0 || !detour(path[n - 1].flags));
         if n > 0 && cart && off > 1e-5 { return Some((format!("waypoint {} lies {:e} m off the straight stroke", n, off), "on the segment".into())); }
-        if s.include_interp && n > 0 && cart { let c = transition_costs(&path[n - 1].joints, &w.joints, &DEFAULT_TRANSITION_COSTS); if c > s.cost_deg.to_radians() + 1e-9 { return Some((format!("transition {} -> {} costs {:.3} deg", n - 1, n, c.to_degrees()), format!("<= {} deg", s.cost_deg))); } }
+        if s.include_interp && n > 0 && cart { let c: f64 = (0..6).map(|i| (path[n - 1].joints[i] - w.joints[i]).abs() * DEFAULT_TRANSITION_COSTS[i]).sum(); /* independent of utils::transition_costs */ if c > s.cost_deg.to_radians() + 1e-9 { return Some((format!("transition {} -> {} costs {:.3} deg", n - 1, n, c.to_degrees()), format!("<= {} deg", s.cost_deg))); } }
     }
     None
 }
@@ -88,6 +87,8 @@ pub fn search(seed: u64, budget: usize) -> Option<Found> {
         let start = [rng.range(-0.5, 0.5), rng.range(0.2, 0.6), rng.range(-0.3, 0.3), rng.range(-0.4, 0.4), rng.range(0.6, 1.2), rng.range(-0.5, 0.5)];
         let s = Scn { start, dx: rng.range(0.05, 0.2), dz: rng.range(-0.15, 0.15), nsteps: rng.below(3), obstacle: round % 3 == 1, include_interp: round % 2 == 0,
                       step_m: [0.01, 0.05, 0.1][rng.below(3)], cost_deg: [2.0, 4.0][rng.below(2)], depth: [4usize, 8][rng.below(2)] };
+        // every fourth round: a cost limit so tight that the bisection gives up and the gaps are closed by RRT detours
+        let s = if round % 4 == 3 { Scn { step_m: 0.04, cost_deg: 0.5, depth: 2, obstacle: false, ..s } } else { s };
         if let Some((o, e)) = check(&s) { return Some(Found { kind: "c12".into(), case: s.to_json(), observed: o, expected: e }); }
     }
     None
